@@ -49,7 +49,7 @@ def _fold(fnode, dim, roi, ctx_func=None):
     fo.func_stack.append(ctx_func if ctx_func is not None else fnode)
     fo.fold_all_methods = True
     meta = {k: Opaque("meta", k) for k in ("space_dim", "indexing", "dimensions", "origin", "series", "scalar", "name", "date", "time")}
-    so = Obj("self", {"__class__": "Image", "space_dim": dim, "num_voxels": [Opaque("int", f"N{k}") for k in range(dim)], "coordinatesystem": Obj("CS", {}),
+    so = Obj("self", {"__class__": "Image", "space_dim": dim, "indexing": "ijk"[:dim], "num_voxels": [Opaque("int", f"N{k}") for k in range(dim)], "coordinatesystem": Obj("CS", {}),
                       "img": Opaque("arr", "DATA"), "metadata": lambda a, k: dict(meta)})
     return fo.call(fnode, [so, roi])
 
